@@ -30,6 +30,8 @@ Check(t) ==
     ELSE IF Checked(cfg) # {} /\ t.files.min_loss = <<>> THEN "min-loss-file-missing"
     ELSE IF t.files.min_loss # <<>> /\ ~\E b \in Checked(cfg) : Q(t.files.min_loss[1]) = After(cfg, b).a /\ Q(t.files.min_loss[2]) = After(cfg, b).b
          THEN "min-loss-file-is-not-a-checked-step"
+    \* a second training phase with the SAME callback object and a fresh Trainer: the final file holds the weights after it
+    ELSE IF t.files2.final = <<>> \/ Q(t.files2.final[1]) # Q(t.phase2.a) \/ Q(t.files2.final[2]) # Q(t.phase2.b) THEN "final-weights-file-after-second-phase"
     ELSE "ok"
 Init == tid \in 1..Len(Traces) /\ verdict = Check(Traces[tid]) /\ dev = ""
 Next == FALSE /\ UNCHANGED <<tid, verdict, dev>>
